@@ -385,9 +385,9 @@ func range_(tokens []Token) ([2]int, error) {
 				if token.Value == "infinite" {
 					// negative infinity as lower bound, positive infinity as upper bound
 					if i == 0 {
-						values[i] = math.MinInt32
+						values[i] = math.MinInt
 					} else {
-						values[i] = math.MaxInt32
+						values[i] = math.MaxInt
 					}
 					continue
 				}
